@@ -39,6 +39,9 @@ type schedCase struct {
 }
 
 func (c *schedCase) reader() io.Reader {
+	if strings.HasPrefix(c.Kind, "as:") {
+		return iofault.NewReader(c.Kind[3:], c.Data)
+	}
 	switch c.Kind {
 	case "split":
 		return &iofault.Split{Data: c.Data, At: c.At}
@@ -63,6 +66,12 @@ func check(c *schedCase) string {
 	if (werr == nil) != (gerr == nil) {
 		return fmt.Sprintf("%s: all-at-once gives err=%v, schedule %s gives err=%v", c.Target, werr, c.describe(), gerr)
 	}
+	// for the interpreter the error a program ends with is part of its
+	// result: the same kind of error (PostScript error name, or the text of
+	// another error up to its first colon) under every schedule
+	if c.Target == "interpreter" && pscanon.ErrorName(werr) != pscanon.ErrorName(gerr) {
+		return fmt.Sprintf("%s: all-at-once ends with err=%v, schedule %s ends with err=%v", c.Target, werr, c.describe(), gerr)
+	}
 	if werr == nil && want != got {
 		i := 0
 		for i < len(want) && i < len(got) && want[i] == got[i] {
@@ -82,6 +91,9 @@ func clip(s string) string {
 }
 
 func (c *schedCase) describe() string {
+	if strings.HasPrefix(c.Kind, "as:") {
+		return "handed over as a " + c.Kind[3:]
+	}
 	switch c.Kind {
 	case "split":
 		return fmt.Sprintf("two chunks split at %d of %d", c.At, len(c.Data))
@@ -112,7 +124,15 @@ func genInput(t *rapid.T) (target string, data []byte, label string) {
 	// under every schedule
 	if len(data) > 0 && rapid.IntRange(0, 4).Draw(t, "corrupt") == 0 {
 		data = append([]byte{}, data...)
-		switch rapid.IntRange(0, 2).Draw(t, "corruptkind") {
+		switch rapid.IntRange(0, 3).Draw(t, "corruptkind") {
+		case 3:
+			// cut within a few bytes behind the eexec operator (inside or just
+			// after the four-byte prefix), or anywhere if there is none
+			if i := bytes.Index(data, []byte("eexec")); i >= 0 {
+				data = data[:min(len(data), i+5+rapid.IntRange(0, 8).Draw(t, "eexeccut"))]
+			} else {
+				data = data[:rapid.IntRange(0, len(data)).Draw(t, "cut2")]
+			}
 		case 0:
 			data[rapid.IntRange(0, len(data)-1).Draw(t, "flipat")] ^= byte(1 << rapid.IntRange(0, 7).Draw(t, "bit"))
 		case 1:
@@ -185,12 +205,18 @@ func genSizes(t *rapid.T) []int {
 func TestP2Chunks(t *testing.T) {
 	rec := ev.New("C12", "chunks")
 	defer rec.Finish(t)
-	rec.Rule("the same inputs under rapid-drawn chunk-size sequences (sizes 1..700, with 511/512/513 and tiny sizes), with and without data delivered together with EOF, and - for type1.Read - through a source that supports seeking (positioned at offset 0 or, as for a font embedded in a larger file, just after 1-40 unrelated lead bytes) vs one that does not. Non-trivial: >= 2 reads; distinct by (input, schedule).")
+	rec.Rule("the same inputs under rapid-drawn chunk-size sequences (sizes 1..700, with 511/512/513 and tiny sizes), with and without data delivered together with EOF, and - for type1.Read - through a source that supports seeking (positioned at offset 0 or, as for a font embedded in a larger file, just after 1-40 unrelated lead bytes) vs one that does not; a quarter of the cases hands the whole input over behind another concrete reader type (strings.Reader, bytes.Buffer, bufio.Reader, a reader without extra methods, a bytes.Reader positioned behind other data, a one-byte io.ByteReader). Inputs are valid or lightly corrupted (a flipped bit, a cut anywhere or just behind an eexec operator, a stray CR). Non-trivial: >= 2 reads; distinct by (input, schedule).")
 	ev.SetupRapid(12000, 480000)
 	rapid.Check(t, func(t *rapid.T) {
 		target, data, label := genInput(t)
 		c := &schedCase{Target: target, Data: data, Kind: "chunks", Sizes: genSizes(t), WithEOF: rapid.Bool().Draw(t, "witheof")}
-		if target == "type1.Read" && rapid.Bool().Draw(t, "seekable") {
+		if rapid.IntRange(0, 3).Draw(t, "readerkind") == 0 {
+			// the whole input at once, but behind a reader of another concrete
+			// type (extra interfaces a library might look for)
+			c.Kind = "as:" + rapid.SampledFrom(iofault.ReaderKinds).Draw(t, "as")
+			c.Sizes = []int{0}
+			label += "+" + c.Kind
+		} else if target == "type1.Read" && rapid.Bool().Draw(t, "seekable") {
 			c.Kind = "seekable"
 			label += "+seekable"
 			if rapid.Bool().Draw(t, "embedded") {
